@@ -39,11 +39,19 @@ CONSTANTS Pts,        \* sequence of candidate points, all of the same dimension
           TMax,       \* layouts of 1..TMax traps; 0 = registers without layout
           Kinds,      \* subset of {"D", "V"}: Device / VirtualDevice
           Dims, MaxAtomsS, MinDistS, MaxRadS, MinTrapsS, MaxTrapsS, Fill4S,
-          OptFill4S,  \* optimal_layout_filling in quarters (0 = undefined): never part of a verdict,
+          OptFill4S,  \* optimal_layout_filling (0 = undefined): never part of a verdict,
                       \* only steers Register.with_automatic_layout
+          FillDen,    \* the filling fractions are f4 / FillDen and of4 / FillDen.  FillDen = 4
+                      \* (dyadic, exact in floats) wherever a filling verdict is decided; other
+                      \* denominators (0.3, 0.35, ...) only in layout-free configurations, where
+                      \* the filling is exercised through the closure of with_automatic_layout
+          Prefix,     \* TRUE: the registers are the prefixes {1..k} of Pts (k = 1..NMax) instead
+                      \* of every subset (closure configurations with many atoms)
           ConnN,      \* numbers of atoms asked from Register.max_connectivity ({} = none)
           ConnSp      \* spacings asked (units; -1 = "use the device's minimum distance")
 VARIABLE c
+
+ASSUME FillDen = 4 \/ TMax = 0
 
 UM == 1024                                   \* units per micrometre
 Idx == 1..Len(Pts)
@@ -57,7 +65,7 @@ PDim == Len(Pts[1])
 \* largest size must be able to hold max_atom_num atoms.
 DevOK(d) ==
   /\ d.kind = "D" => (d.na > 0 /\ d.mr > 0)
-  /\ d.th > 0 => (d.th >= d.tl /\ (d.na > 0 => (d.f4 * d.th) \div 4 >= d.na))
+  /\ d.th > 0 => (d.th >= d.tl /\ (d.na > 0 => (d.f4 * d.th) \div FillDen >= d.na))
   /\ d.of4 = 0 \/ (0 < d.of4 /\ d.of4 <= d.f4)
 Devs == {d \in [kind: Kinds, dim: Dims, na: MaxAtomsS, md: MinDistS, mr: MaxRadS,
                 tl: MinTrapsS, th: MaxTrapsS, f4: Fill4S, of4: OptFill4S] : DevOK(d)}
@@ -95,8 +103,8 @@ Viol(P, d, a, t) ==
   \cup (IF HasLayout(t) /\ d.th > 0 /\ Cardinality(t) > d.th THEN {"tmax"} ELSE {})
   \cup (IF HasLayout(t) /\ MustPairs(P, t, d) # {} THEN {"tdist"} ELSE {})
   \cup (IF HasLayout(t) /\ TooFar(P, t, d) # {} THEN {"trad"} ELSE {})
-  \* filling fraction atoms/traps <= f4/4, in integers
-  \cup (IF HasLayout(t) /\ 4 * Cardinality(a) > d.f4 * Cardinality(t) THEN {"fill"} ELSE {})
+  \* filling fraction atoms/traps <= f4/FillDen, in integers
+  \cup (IF HasLayout(t) /\ FillDen * Cardinality(a) > d.f4 * Cardinality(t) THEN {"fill"} ELSE {})
 \* clauses on which the tolerance band leaves the verdict open
 Open(P, d, a, t) ==
      (IF MayPairs(P, a, d) # {} THEN {"dist"} ELSE {})
@@ -112,7 +120,9 @@ DistinctPts(S) == \A i, j \in S : i # j => Pts[i] # Pts[j]
 \* trap coordinates are stored with 6 decimals: multiples of 2^-6 um are kept exactly
 OnTrapGrid(S) == \A i \in S : \A k \in 1..PDim : (Pts[i][k] % 16) = 0
 Regs ==
-  IF TMax = 0
+  IF Prefix
+  THEN {[a |-> 1..k, t |-> {}] : k \in 1..NMax}
+  ELSE IF TMax = 0
   THEN {[a |-> a, t |-> {}] : a \in {s \in SUBSET Idx : Cardinality(s) \in 1..NMax}}
   ELSE UNION {{[a |-> a, t |-> t] : a \in {s \in SUBSET t : Cardinality(s) \in 1..NMax}} :
               t \in {s \in SUBSET Idx : Cardinality(s) \in 1..TMax
@@ -202,7 +212,7 @@ ConnLaw ==
 (* ---------------------------------------------------------------------- *)
 (* emission                                                                *)
 (* ---------------------------------------------------------------------- *)
-DevTuple(d) == <<d.kind, d.dim, d.na, d.md, d.mr, d.tl, d.th, d.f4, d.of4>>
+DevTuple(d) == <<d.kind, d.dim, d.na, d.md, d.mr, d.tl, d.th, d.f4, d.of4, FillDen>>
 EmitConn == PrintT("PT|" \o ToJson([d |-> DevTuple(c.dev), n |-> c.n, sp |-> c.sp,
                                           x |-> ConnMustRaise(c.dev, c.n, c.sp)]))
 EmitReg ==
